@@ -54,7 +54,13 @@ def build_dataset(kind, pos_unit):
     tr["position"] = V_(tpts[:, 0].copy(), tpts[:, 1].copy(), tpts[:, 2].copy(), unit=pos_unit)
     tr["age"] = A_(np.arange(n, dtype=np.float64) + 9000, unit="yr")
     ds["tracers"] = tr
-    spec = {"mesh": (pts, n), "hydro": (pts, n), "part": (ppts, len(ppts)), "tracers": (tpts, n)}
+    # a group whose own positions are written in another length unit than those of the groups before it (exact factor)
+    small = {"m": ("cm", 100.0), "cm": ("mm", 10.0)}[pos_unit]
+    dust = DG()
+    dust["position"] = V_(ppts[:, 0] * small[1], ppts[:, 1] * small[1], ppts[:, 2] * small[1], unit=small[0])
+    dust["size"] = A_(np.arange(len(ppts), dtype=np.float64) + 300, unit="cm")
+    ds["dust"] = dust
+    spec = {"mesh": (pts, n), "hydro": (pts, n), "part": (ppts, len(ppts)), "tracers": (tpts, n), "dust": (ppts, len(ppts))}
     if kind in ("full", "small"):
         other = DG()
         other["q"] = A_(np.arange(4, dtype=np.float64), unit="s")
